@@ -619,7 +619,7 @@ func c16Real(w *W) {
 			var c net.Conn
 			var err error
 			if tran == "tls+tcp" {
-				d := &net.Dialer{Timeout: 5 * time.Second}
+				d := &net.Dialer{Timeout: 20 * time.Second}
 				c, err = tls.DialWithDialer(d, "tcp", hostport, cliCfg)
 			} else {
 				c, err = net.Dial("tcp", hostport)
@@ -628,7 +628,7 @@ func c16Real(w *W) {
 				return nil
 			}
 			c.Write(wcHeader(protoOf(peerKind[kind])))
-			c.SetReadDeadline(time.Now().Add(5 * time.Second))
+			c.SetReadDeadline(time.Now().Add(20 * time.Second))
 			if _, _, err := wcReadHeader(c); err != nil {
 				c.Close()
 				return nil
@@ -637,7 +637,7 @@ func c16Real(w *W) {
 				send:  func(p []byte) error { _, err := c.Write(wcFrame(false, p)); return err },
 				close: func() { c.Close() },
 				alive: func() bool {
-					c.SetReadDeadline(time.Now().Add(2 * time.Second))
+					c.SetReadDeadline(time.Now().Add(10 * time.Second))
 					_, err := c.Read(make([]byte, 1))
 					ne, ok := err.(net.Error)
 					return err == nil || (ok && ne.Timeout())
@@ -653,19 +653,27 @@ func c16Real(w *W) {
 			send:  func(p []byte) error { return c.WriteMessage(websocket.BinaryMessage, p) },
 			close: func() { c.Close() },
 			alive: func() bool {
-				c.SetReadDeadline(time.Now().Add(2 * time.Second))
+				c.SetReadDeadline(time.Now().Add(10 * time.Second))
 				_, _, err := c.ReadMessage()
 				ne, ok := err.(net.Error)
 				return err == nil || (ok && ne.Timeout())
 			},
 		}
 	}
-	drain := func() [][]byte {
+	// drain takes what the application can receive. With expect > 0 it keeps
+	// trying (80ms receive deadline per attempt) until that many messages are
+	// in or 15s of real time have passed: on a loaded machine "not there after
+	// 80ms" means nothing. Oracles that need absence only get the short look.
+	drain := func(expect int) [][]byte {
 		var out [][]byte
-		for i := 0; i < 32; i++ {
+		end := time.Now().Add(15 * time.Second)
+		for i := 0; i < 400; i++ {
 			b, err := s.Recv()
 			if err != nil {
-				break
+				if len(out) >= expect || time.Now().After(end) {
+					break
+				}
+				continue
 			}
 			out = append(out, b)
 		}
@@ -686,7 +694,7 @@ func c16Real(w *W) {
 			w.Failf("C16/control-peer-starved:"+kind, "control write: %v", err)
 			return false
 		}
-		for _, g := range drain() {
+		for _, g := range drain(1) {
 			if string(g) == tag {
 				w.Probe("control-exchange-ok")
 				w.Delivery++
@@ -728,7 +736,7 @@ func c16Real(w *W) {
 			w.OnCleanup(func() { c.Close() })
 			time.Sleep(30 * time.Millisecond)
 			oc := w.Do("Listener.GetOption", func() (interface{}, error) { return l.GetOption(mangos.OptionMaxRecvSize) })
-			if !oc.Wait(3 * time.Second) {
+			if !oc.Wait(20 * time.Second) {
 				w.Failf("C12/call-never-returns:Listener.GetOption", "%s over %s: a peer connected and stays silent; GetOption on the listener does not return", kind, tran)
 				return
 			}
@@ -748,8 +756,12 @@ func c16Real(w *W) {
 			w.Op("hostile: message of %d bytes, limit %d", n, limit)
 			time.Sleep(20 * time.Millisecond)
 			_ = p.send(payload)
-			got := drain()
 			body, ok := deliverable(kind, payload)
+			exp := 0
+			if n <= limit && ok {
+				exp = 1
+			}
+			got := drain(exp)
 			if n <= limit {
 				if ok && (len(got) != 1 || !bytes.Equal(got[0], body)) {
 					w.Failf("C16/well-formed-message-lost:"+kind, "%s over %s (MaxRecvSize %d): a %d-byte message was not delivered intact (got %d messages)", kind, tran, limit, n, len(got))
@@ -765,7 +777,7 @@ func c16Real(w *W) {
 					return
 				}
 				if p.alive() {
-					w.Failf("C16/oversize-not-dropped:"+kind, "%s over %s (MaxRecvSize %d): after a %d-byte message the connection is still open 2s later", kind, tran, limit, n)
+					w.Failf("C16/oversize-not-dropped:"+kind, "%s over %s (MaxRecvSize %d): after a %d-byte message the connection is still open 10s later", kind, tran, limit, n)
 					return
 				}
 				w.Probe("over-limit-connection-dropped")
@@ -784,7 +796,7 @@ func c16Real(w *W) {
 				w.Fault("oversize")
 				c.Write(wcHeader(protoOf(peerKind[kind])))
 				c.Write([]byte{0x7f, 0xff, 0xff, 0xff, 0xff, 0xff, 0xff, 0xff})
-				c.SetReadDeadline(time.Now().Add(3 * time.Second))
+				c.SetReadDeadline(time.Now().Add(10 * time.Second))
 				buf := make([]byte, 64)
 				closed := false
 				for i := 0; i < 4; i++ {
@@ -795,7 +807,7 @@ func c16Real(w *W) {
 					}
 				}
 				if !closed && !pairLike {
-					w.Failf("C16/oversize-not-dropped:"+kind, "%s over tcp (MaxRecvSize %d): a peer announced 2^63-1 bytes; the connection is still open 3s later", kind, limit)
+					w.Failf("C16/oversize-not-dropped:"+kind, "%s over tcp (MaxRecvSize %d): a peer announced 2^63-1 bytes; the connection is still open 10s later", kind, limit)
 					return
 				}
 				w.Probe("huge-announcement-dropped")
@@ -821,7 +833,7 @@ func c16Real(w *W) {
 			time.Sleep(10 * time.Millisecond)
 			c.Close()
 		}
-		if len(drain()) > 0 && k != 2 && k != 3 {
+		if len(drain(0)) > 0 && k != 2 && k != 3 {
 			w.Failf("C16/pollution:"+kind, "%s over %s delivered something after connection-level garbage", kind, tran)
 			return
 		}
